@@ -930,6 +930,11 @@ func (vc *VC) storeLoc(l Loc, st *State, v Val, n ast.Node) {
 		copy(nc[l.lo:], v.C)
 		st.vars[l.obj] = Val{T: old.T, C: nc}
 	case 1:
+		for _, po := range vc.preserved {
+			if typeKey(po.elem) == typeKey(l.elem) {
+				vc.oblige(st, "frame.store", n, fmt.Sprintf("%s never writes *%s: %s", vc.unit, po.name, nodeText(vc.prog.Fset, n)), Not(And(Eq(l.arr, po.arr), Eq(l.idx, po.idx))))
+			}
+		}
 		vc.storeComps(st, l.elem, l.arr, l.idx, l.lo, v)
 	case 2:
 		vc.storeGlobal(l.obj.(*types.Var), st, v, l.lo)
